@@ -29,8 +29,8 @@ def apply(fc):
                                      ('parse_day', 'day', 'u8', 'Option<u8>', 0), ('parse_minsec', 'minsec', 'u8', 'Option<u8>', 60)]:
         fc.contract(fn, requires=['cur_ok(data)'], ensures=['%s_post(data, r)' % fn], tags=['C11', 'C04'])
         fn_opt = 'opt_ne_u16' if ty == 'u16' else 'opt_ne_u8'
-        fc.wrap_closure_block_re(fn, r'\|(\w+)\| match \1 \{',
-                                 r'|\1: %s| -> (o: %s) ensures o == %s(\1 as int, %d), { match \1 {' % (ty, oty, fn_opt, sent))
+        fc.wrap_closure_expr_re(fn, r'\|(\w+)\|',
+                                r'|\1: %s| -> (o: %s) ensures o == %s(\1 as int, %d), {' % (ty, oty, fn_opt, sent))
     fc.contract('parse_hour', requires=['cur_ok(data)'], ensures=['parse_hour_post(data, r)'], tags=['C04'])
     fc.contract('remaining_bits', requires=['cur_ok(data)'],
                 ensures=['forall|orig: Seq<u8>, p: int| #[trigger] at(orig, data, p) ==> r == 8 * orig.len() - p',
